@@ -34,6 +34,11 @@ mod tree_painter;
 
 pub mod counter;
 
+/// Verification-only wrappers over crate-private API (`--cfg divan_verif`).
+#[cfg(divan_verif)]
+#[doc(hidden)]
+pub mod verif;
+
 /// `use divan::prelude::*;` to import common items.
 pub mod prelude {
     #[doc(no_inline)]
